@@ -90,7 +90,8 @@ def plan(fault, nbus, hot_pair, full):
         for kappa, topo in itertools.product(("B", "C"), ("auto", "radial", "meshed")):
             if (kappa, topo) != ("C", "auto"):
                 cfgs.append({"sn": 1, "inv": True, "bus": None, "kappa": kappa, "topo": topo})
-            cfgs.append({"sn": 100, "inv": False, "bus": list(hot_pair), "kappa": kappa, "topo": topo})
+            if full or (kappa, topo) in (("B", "meshed"), ("C", "radial")):
+                cfgs.append({"sn": 100, "inv": False, "bus": list(hot_pair), "kappa": kappa, "topo": topo})
     return cfgs
 
 
@@ -118,8 +119,11 @@ def _judge_rows(net, fault, case, lv_tol, res, ref3, cfgname, toks0, kappa_only=
             if fault == "3ph":
                 skss = float(res.at[b, "skss_mw"])
                 if not _close(skss, math.sqrt(3.) * un * ikss):
+                    # recorded defect C18-skss-psgen-sgen: the whole sum IKSS1+IKSS2 is scaled by UrG/Un in SKSS, only IKSS1 in ikss
+                    pred = math.sqrt(3.) * un * (i1 + (ikss - i1) * un_src / un)
+                    ex = ["explained=skss_scales_converter_part"] if (b in psvn and cs and _close(skss, pred)) else []
                     vs.append(core.violation("skss", {"bus": b, "skss_mw": skss, "ikss_ka": ikss, "un_kv": un,
-                                                      "expected": math.sqrt(3.) * un * ikss, "cfg": cfgname}, tokens=toks, klass="skss"))
+                                                      "expected": math.sqrt(3.) * un * ikss, "cfg": cfgname}, tokens=toks + ex, klass="skss"))
             if fault == "2ph" and not cs and ref3 is not None:
                 i3 = float(ref3.at[b, "ikss_ka"])
                 if not _close(ikss, math.sqrt(3.) / 2. * i3):
@@ -153,7 +157,8 @@ def _run_case(case):
     out = {"violations": [], "n": 0, "counts": {}, "sig": None}
     nets = {1: _net_for(net0, 1), 100: _net_for(net0, 100)}
     cols = COLS[fault]
-    toks0 = ["fault=" + fault, "case=" + cse] + sorted(set("dev=" + d[0] for d in case["devs"]))
+    toks0 = ["fault=" + fault, "case=" + cse] + sorted(set(
+        "dev=" + (d[0] if d[0] != "set" else "set:%s.%s=%s" % (d[1], d[3], d[4])) for d in case["devs"]))
 
     def cnt(k):
         out["counts"][k] = out["counts"].get(k, 0) + 1
@@ -278,10 +283,11 @@ def gen_cases(tier):
         h0, h1 = f_sc.HOT[b]
         for devs in na.subsets(menu, 2, compatible=f_sc.compatible):
             devs = [list(d) for d in devs]
+            zero_seq_only = any(f_sc.zero_sequence_only(d) for d in devs)
             has_lv = any(d[0] == "sc_lv" for d in devs)
             nb = 4 + (2 if has_lv else 0)
             for cse in CASES:
-                for fault in FAULTS:
+                for fault in (["1ph"] if zero_seq_only else FAULTS):
                     for lv_tol in ((10, 6) if has_lv else (10,)):
                         full = tier == "thorough" or len(devs) <= 1
                         cases.append({"base": b, "devs": devs, "case": cse, "fault": fault, "lv_tol": lv_tol,
